@@ -581,6 +581,12 @@ func (vc *VC) evalCall(x *ECall, env *Env, st, old *State) Val {
 	case "subslice":
 		a, b := arg(0), arg(1)
 		return Val{K: KBool, T: tBool, S: and(sx("wfslice", a.S), eq(sx("sarr", a.S), sx("sarr", b.S)), sx("<=", sx("soff", b.S), sx("soff", a.S)), sx("<=", sx("+", sx("soff", a.S), sx("slen", a.S)), sx("+", sx("soff", b.S), sx("slen", b.S))), not(eq(sx("sarr", a.S), "nil")))}
+	case "sliceof":
+		a := arg(0)
+		if a.Inner == nil {
+			panic(unsupported("sliceof: the dynamic value of the interface is not known here"))
+		}
+		return *a.Inner
 	case "sameslice":
 		a, b := arg(0), arg(1)
 		return Val{K: KBool, T: tBool, S: eq(a.S, b.S)}
